@@ -188,11 +188,16 @@ class C13(Scenario):
         for v in names:
             ctx.eq(f"Simulator.y0[{v}]", sim.y0[v], e0[v])
         # history: a parameter is changed after the cache exists -> assignments are resolved again
+        plain_p = [pn for pn, pd_ in E.Decl(m).parameters.items() if not hasattr(pd_.value, "fn")]
+        # one edit, then a look: a later invalidating edit must not get the chance to repair what an earlier one left stale
+        with ctx.impl("update_parameter (first)"):
+            m.update_parameter(plain_p[-1], ctx.real(f"p2_{plain_p[-1]}"))
+        e1 = self.check_state(ctx, m, "after one update: ", state, T)
         with ctx.impl("update_parameter"):
-            for pn, pd_ in E.Decl(m).parameters.items():
-                if not hasattr(pd_.value, "fn"):
-                    m.update_parameter(pn, ctx.real(f"p2_{pn}"))
-        e1 = self.check_state(ctx, m, "after update: ", state, T)
+            for pn in plain_p[:-1]:
+                m.update_parameter(pn, ctx.real(f"p2_{pn}"))
+        if len(plain_p) > 1:
+            e1 = self.check_state(ctx, m, "after update: ", state, T)
         with ctx.impl("Simulator after update"):
             sim = Simulator(m)
         for v in names:
